@@ -39,6 +39,9 @@ type valD struct {
 	Late   bool   `json:"late,omitempty"`   // also set the header X-Late (marks writes of a late handler)
 	Stream bool   `json:"stream,omitempty"` // write the body with SetBodyStream(reader, -1)
 	TErr   bool   `json:"terr,omitempty"`   // a late handler: call ctx.TimeoutErrorWithCode(Body, Status) instead of writing the response
+	LTER   bool   `json:"lter,omitempty"`   // a late handler: mutate the Response returned by ctx.LastTimeoutErrorResponse() instead
+	Hijack bool   `json:"hijack,omitempty"` // also call ctx.Hijack (on a timed-out ctx this must have no effect)
+	THdr   bool   `json:"thdr,omitempty"`   // a timeout response passed to TimeoutErrorWithResponse: carries the header X-T
 }
 
 type evD struct {
@@ -54,6 +57,9 @@ type evD struct {
 	Writes []valD `json:"w,omitempty"`    // late: what the released handler does, in order
 	Pick   int    `json:"pick,omitempty"` // model only: which pooled ctx acquireCtx hands out
 	During bool   `json:"during,omitempty"`
+	Pre     *valD `json:"pre,omitempty"`     // slow: what the handler writes to its ctx BEFORE it blocks (lost with the old ctx)
+	Close   bool  `json:"close,omitempty"`   // the request carries "Connection: close" (last request of its connection)
+	ShowNum bool  `json:"shownum,omitempty"` // fast: the handler appends "#" + ctx.ConnRequestNum() to the body
 }
 
 type cfgD struct {
@@ -61,6 +67,8 @@ type cfgD struct {
 	NoDate bool   `json:"nodate,omitempty"`
 	NoCT   bool   `json:"noct,omitempty"`
 	NoNorm bool   `json:"nonorm,omitempty"`
+	MaxReq    int  `json:"maxreq,omitempty"`    // Server.MaxRequestsPerConn
+	ReduceMem bool `json:"reducemem,omitempty"` // Server.ReduceMemoryUsage: the ctx goes back to the pool between requests
 }
 
 type desc struct {
@@ -72,6 +80,7 @@ type desc struct {
 	Tag    string `json:"tag,omitempty"`
 	Key    string `json:"key,omitempty"`
 	UseSC  bool   `json:"servecon,omitempty"` // serve the connections with ServeConn instead of Serve
+	SlowMs int    `json:"slowms,omitempty"`   // timeout of the handlers that are meant to time out (default 20)
 
 	fut *future
 }
@@ -106,9 +115,28 @@ func (t *teeConn) Read(p []byte) (int, error) {
 }
 
 func applyVal(ctx *fasthttp.RequestCtx, v valD) {
+	if v.Hijack {
+		ctx.Hijack(func(c net.Conn) { c.Write([]byte("X-Late: hijacked\r\n\r\n")) }) //nolint:errcheck
+	}
 	if v.TErr {
 		ctx.TimeoutErrorWithCode(string(v.Body), v.Status)
 		return
+	}
+	if v.LTER {
+		if r := ctx.LastTimeoutErrorResponse(); r != nil {
+			r.SetStatusCode(v.Status)
+			r.SetBody(v.Body)
+			r.Header.Set("X-Late", "1")
+		}
+		return
+	}
+	if v.Late {
+		// the context.Context face of a (timed-out) ctx, and its user values
+		_ = ctx.Done()
+		_ = ctx.Err()
+		_, _ = ctx.Deadline()
+		_ = ctx.Value("late")
+		ctx.SetUserValue("late", 1)
 	}
 	ctx.SetStatusCode(v.Status)
 	if v.Stream {
@@ -119,6 +147,13 @@ func applyVal(ctx *fasthttp.RequestCtx, v valD) {
 	if v.Late {
 		ctx.Response.Header.Set("X-Late", "1")
 	}
+}
+
+func effectiveCap(d desc) int {
+	if d.Cap <= 0 {
+		return fasthttp.DefaultConcurrency
+	}
+	return d.Cap
 }
 
 func serverName(c cfgD) string {
@@ -135,6 +170,7 @@ func runScenario(d desc) (res result) {
 		}
 	}()
 	tcode := d.TCode
+	effCap := effectiveCap(d)
 	var running, maxrun int32
 	gates := map[int]chan struct{}{}
 	dones := map[int]chan struct{}{}
@@ -164,7 +200,14 @@ func runScenario(d desc) (res result) {
 		mu.Unlock()
 		switch e.RKind {
 		case "fast":
-			applyVal(ctx, *e.Val)
+			v := *e.Val
+			if e.ShowNum {
+				v.Body = append(append(hlib.B(nil), v.Body...), []byte("#"+strconv.FormatUint(ctx.ConnRequestNum(), 10))...)
+			}
+			applyVal(ctx, v)
+			if ctx.UserValue("late") != nil {
+				ctx.Response.Header.Set("X-Late", "uservalue")
+			}
 		case "self":
 			tv := *e.TVal
 			switch e.TVr % 3 {
@@ -174,6 +217,9 @@ func runScenario(d desc) (res result) {
 				var r fasthttp.Response
 				r.SetStatusCode(tv.Status)
 				r.SetBody(tv.Body)
+				if tv.THdr {
+					r.Header.Set("X-T", "1")
+				}
 				ctx.TimeoutErrorWithResponse(&r)
 				// TimeoutErrorWithResponse copies: what happens to r afterwards is not sent
 				r.SetStatusCode(299)
@@ -188,6 +234,9 @@ func runScenario(d desc) (res result) {
 			}
 			applyVal(ctx, *e.Val)
 		case "slow":
+			if e.Pre != nil {
+				applyVal(ctx, *e.Pre)
+			}
 			<-gates[e.ID]
 			mu.Lock()
 			ws := lateWrites[e.ID]
@@ -204,13 +253,19 @@ func runScenario(d desc) (res result) {
 		}
 		return fasthttp.TimeoutWithCodeHandler(h, t, d.TMsg, tcode)
 	}
-	hSlow, hFast := mk(inner, slowTimeout), mk(inner, longTimeout)
+	slowT := slowTimeout
+	if d.SlowMs > 0 {
+		slowT = time.Duration(d.SlowMs) * time.Millisecond
+	}
+	hSlow, hFast := mk(inner, slowT), mk(inner, longTimeout)
 	s := &fasthttp.Server{
 		Name:                          d.Cfg.Name,
 		NoDefaultDate:                 d.Cfg.NoDate,
 		NoDefaultContentType:          d.Cfg.NoCT,
 		DisableHeaderNamesNormalizing: d.Cfg.NoNorm,
 		Concurrency:                   d.Cap,
+		MaxRequestsPerConn:            d.Cfg.MaxReq,
+		ReduceMemoryUsage:             d.Cfg.ReduceMem,
 		Logger:                        nullLogger{},
 		Handler: func(ctx *fasthttp.RequestCtx) {
 			mu.Lock()
@@ -282,7 +337,10 @@ func runScenario(d desc) (res result) {
 				ver = "HTTP/1.0"
 				extra = "Connection: keep-alive\r\n"
 			}
-			willRun := tokens < d.Cap
+			if e.Close {
+				extra = "Connection: close\r\n"
+			}
+			willRun := tokens < effCap
 			if e.RKind == "slow" && willRun {
 				held[e.ID] = true
 				tokens++
@@ -358,8 +416,12 @@ func valCoq(v valD) string {
 }
 
 // the timeout response handed to TimeoutError*: built on a zero Response
-func tvalCoq(v valD) string {
-	return hlib.List([]string{"(HHdr " + hlib.App("ROSetStatusCode", hlib.Z(int64(v.Status))) + ")", hlib.App("HSetBody", pk.Hex(v.Body))})
+func tvalCoq(v valD, withHdr bool) string {
+	ops := []string{"(HHdr " + hlib.App("ROSetStatusCode", hlib.Z(int64(v.Status))) + ")", hlib.App("HSetBody", pk.Hex(v.Body))}
+	if v.THdr && withHdr {
+		ops = append(ops, "(HHdr "+hlib.App("ROSet", pk.HexS("X-T"), pk.HexS("1"))+")")
+	}
+	return hlib.List(ops)
 }
 
 func run(d desc) hlib.Case {
@@ -401,9 +463,16 @@ func run(d desc) hlib.Case {
 			if idx < len(res.smsgs[e.Conn]) {
 				smsg = res.smsgs[e.Conn][idx]
 			}
-			reqs[e.Conn] = append(reqs[e.Conn], hlib.Tuple(m, hlib.App("mkRq", hlib.Bool(e.Method == "HEAD"), hlib.Bool(!e.V10), "false"), pk.HexS(smsg)))
+			// connectionClose of the serve loop: the request asked for it, or MaxRequestsPerConn is reached with this request
+			closeAfter := e.Close || (d.Cfg.MaxReq > 0 && idx+1 >= d.Cfg.MaxReq)
+			reqs[e.Conn] = append(reqs[e.Conn], hlib.Tuple(m, hlib.App("mkRq", hlib.Bool(e.Method == "HEAD"), hlib.Bool(!e.V10), hlib.Bool(closeAfter)), pk.HexS(smsg)))
+			if e.ShowNum && e.Val != nil {
+				v := *e.Val
+				v.Body = append(append(hlib.B(nil), v.Body...), []byte("#"+strconv.Itoa(idx+1))...)
+				e.Val = &v
+			}
 			trace = append(trace, hlib.App("LReqStart", c))
-			has := tokens < d.Cap
+			has := tokens < effectiveCap(d)
 			switch e.RKind {
 			case "fast":
 				events = append(events, hlib.App("EvReq", c, hlib.App("KFast", hlib.Z(int64(e.Val.Status)), pk.Hex(e.Val.Body))))
@@ -423,7 +492,7 @@ func run(d desc) hlib.Case {
 				if has {
 					h := hlib.Nat(nextH)
 					nextH++
-					trace = append(trace, hlib.App("LHandlerTimeoutErr", h, tvalCoq(*e.TVal)), hlib.App("LHandlerWrite", h, valCoq(*e.Val)),
+					trace = append(trace, hlib.App("LHandlerTimeoutErr", h, tvalCoq(*e.TVal, e.TVr%3 == 1)), hlib.App("LHandlerWrite", h, valCoq(*e.Val)),
 						hlib.App("LHandlerFinish", h), hlib.App("LWrapperDone", c), hlib.App("LHandlerRelease", h),
 						hlib.App("LReadTimeout", c), hlib.App("LSwapCtx", c, hlib.Nat(e.Pick)), hlib.App("LCopyResp", c), hlib.App("LSerialize", c))
 				} else {
@@ -433,6 +502,9 @@ func run(d desc) hlib.Case {
 				events = append(events, hlib.App("EvReq", c, hlib.App("KSlow", hlib.Nat(e.ID))))
 				if has {
 					hOf[e.ID] = nextH
+					if e.Pre != nil {
+						trace = append(trace, hlib.App("LHandlerWrite", hlib.Nat(nextH), valCoq(*e.Pre)))
+					}
 					nextH++
 					tokens++
 					trace = append(trace, hlib.App("LTimerFire", c), hlib.App("LReadTimeout", c), hlib.App("LSwapCtx", c, hlib.Nat(e.Pick)),
@@ -446,8 +518,8 @@ func run(d desc) hlib.Case {
 			if hi, ok := hOf[e.ID]; ok {
 				h := hlib.Nat(hi)
 				for _, w := range e.Writes {
-					if w.TErr {
-						trace = append(trace, hlib.App("LHandlerTimeoutErr", h, tvalCoq(w)))
+					if w.TErr || w.LTER {
+						trace = append(trace, hlib.App("LHandlerTimeoutErr", h, tvalCoq(w, false)))
 					} else {
 						trace = append(trace, hlib.App("LHandlerWrite", h, valCoq(w)))
 					}
@@ -468,8 +540,8 @@ func run(d desc) hlib.Case {
 		wiresC = append(wiresC, hlib.List(ws))
 	}
 	cfg := hlib.App("mkCfg", pk.HexS(serverName(d.Cfg)), hlib.Bool(d.Cfg.NoDate), hlib.Bool(d.Cfg.NoCT), hlib.Bool(d.Cfg.NoNorm), "false")
-	semCap := d.Cap // since /repo 0e1d77b the semaphore is created by ServeConn as well as by Serve
-	coq := hlib.App("C16Trace", cfg, hlib.Nat(d.Cap), hlib.Nat(semCap), pk.HexS(fixedDate), pk.HexS(d.TMsg), hlib.Z(int64(tcode)),
+	semCap := effectiveCap(d) // since /repo 0e1d77b the semaphore is created by ServeConn as well as by Serve
+	coq := hlib.App("C16Trace", cfg, hlib.Nat(effectiveCap(d)), hlib.Nat(semCap), pk.HexS(fixedDate), pk.HexS(d.TMsg), hlib.Z(int64(tcode)),
 		hlib.List(events), hlib.List(trace), hlib.List(reqsC), hlib.List(wiresC), hlib.Nat(res.maxrun))
 	sig := d.Tag
 	for _, e := range d.Events {
@@ -527,15 +599,20 @@ func rval(r *rand.Rand) *valD {
 	return &valD{Status: hlib.Pick(r, []int{200, 200, 201, 404, 500, 204}), Body: hlib.Bytes(r, bodyAlpha, 16), Stream: r.Intn(6) == 0}
 }
 func rtval(r *rand.Rand) *valD {
-	return &valD{Status: hlib.Pick(r, []int{408, 408, 504, 503, 299}), Body: append([]byte("self-timeout "), hlib.Bytes(r, bodyAlpha, 8)...)}
+	return &valD{Status: hlib.Pick(r, []int{408, 408, 504, 503, 299}), Body: append([]byte("self-timeout "), hlib.Bytes(r, bodyAlpha, 8)...), THdr: r.Intn(3) == 0}
 }
 func rlate(r *rand.Rand, id int) []valD {
 	n := 1 + r.Intn(3)
 	var ws []valD
 	for i := 0; i < n; i++ {
 		w := valD{Status: hlib.Pick(r, []int{299, 200, 500}), Body: []byte("late-" + strconv.Itoa(id) + "-" + strconv.Itoa(i)), Late: true, Stream: r.Intn(3) == 0}
-		if r.Intn(4) == 0 {
+		switch r.Intn(8) {
+		case 0, 1:
 			w = valD{Status: 599, Body: []byte("late-timeout-" + strconv.Itoa(id)), TErr: true}
+		case 2:
+			w = valD{Status: 299, Body: []byte("late-lter-" + strconv.Itoa(id)), LTER: true}
+		case 3:
+			w.Hijack = true
 		}
 		ws = append(ws, w)
 	}
@@ -544,6 +621,8 @@ func rlate(r *rand.Rand, id int) []valD {
 
 func gen(r *rand.Rand, i int) desc {
 	d := desc{Cap: 1 + r.Intn(3), TMsg: "timed out " + strconv.Itoa(r.Intn(100)), TCode: hlib.Pick(r, []int{0, 0, 503, 408, 504}), Tag: "scenario"}
+	d.SlowMs = hlib.Pick(r, []int{5, 10, 20, 35})
+	d.Cfg.ReduceMem = r.Intn(4) == 0
 	switch r.Intn(5) {
 	case 0:
 		d.Cfg.NoDate = true
@@ -570,7 +649,11 @@ func gen(r *rand.Rand, i int) desc {
 		switch k := r.Intn(10); {
 		case k < 3 && slowBudget > 0:
 			slowBudget--
-			d.Events = append(d.Events, evD{Kind: "req", Conn: c, RKind: "slow", Method: m, V10: v10, ID: nextID, Pick: r.Intn(4)})
+			ev := evD{Kind: "req", Conn: c, RKind: "slow", Method: m, V10: v10, ID: nextID, Pick: r.Intn(4)}
+			if r.Intn(3) == 0 { // the handler had already built a response (also a streamed one) when the timeout fired
+				ev.Pre = &valD{Status: 200, Body: []byte("pre-" + strconv.Itoa(nextID)), Late: true, Stream: r.Intn(2) == 0, Hijack: r.Intn(4) == 0}
+			}
+			d.Events = append(d.Events, ev)
 			pending = append(pending, nextID)
 			nextID++
 		case k < 5 && len(pending) > 0:
@@ -579,9 +662,11 @@ func gen(r *rand.Rand, i int) desc {
 			pending = append(pending[:j], pending[j+1:]...)
 			d.Events = append(d.Events, evD{Kind: "late", ID: id, Writes: rlate(r, id)})
 		case k < 7:
-			d.Events = append(d.Events, evD{Kind: "req", Conn: c, RKind: "self", Method: m, V10: v10, Val: rval(r), TVal: rtval(r), TVr: r.Intn(3), Pick: r.Intn(4)})
+			sv := rval(r)
+			sv.Late, sv.Hijack = true, r.Intn(4) == 0 // what a handler writes after TimeoutError* is not sent, a hijack is not honoured
+			d.Events = append(d.Events, evD{Kind: "req", Conn: c, RKind: "self", Method: m, V10: v10, Val: sv, TVal: rtval(r), TVr: r.Intn(3), Pick: r.Intn(4)})
 		default:
-			d.Events = append(d.Events, evD{Kind: "req", Conn: c, RKind: "fast", Method: m, V10: v10, Val: rval(r), TVr: r.Intn(2)})
+			d.Events = append(d.Events, evD{Kind: "req", Conn: c, RKind: "fast", Method: m, V10: v10, Val: rval(r), TVr: r.Intn(2), ShowNum: r.Intn(2) == 0})
 		}
 	}
 	// the late handlers finish while (or before) ordinary requests follow
@@ -645,6 +730,29 @@ func corpus() []desc {
 	// a connection is closed and its ctx re-pooled while a late handler of another connection still runs
 	out = append(out, desc{Cap: 4, TMsg: "t/o", Tag: "pool", Events: []evD{{Kind: "open"}, {Kind: "open"}, slow(0, "GET", 0), fast(1, "GET", "one"), {Kind: "close", Conn: 1},
 		{Kind: "open", Pick: 1}, fast(2, "GET", "two"), late(0, lw("late")), fast(2, "GET", "three"), fast(0, "GET", "four")}})
+	// the request asks for "Connection: close" and times out: the timeout response closes the connection
+	for _, m := range []string{"GET", "HEAD"} {
+		out = append(out, desc{Cap: 4, TMsg: "t/o", Tag: "conn-close", Events: []evD{{Kind: "open"}, {Kind: "open"}, fast(0, "GET", "first"),
+			{Kind: "req", Conn: 0, RKind: "slow", Method: m, ID: 0, Close: true}, fast(1, "GET", "other conn"), late(0, lw("late")), fast(1, "GET", "end")}})
+		out = append(out, desc{Cap: 4, TMsg: "t/o", Tag: "conn-close", Events: []evD{{Kind: "open"},
+			{Kind: "req", Conn: 0, RKind: "self", Method: m, Val: &valD{Status: 200, Body: hlib.B("x"), Late: true}, TVal: &valD{Status: 504, Body: hlib.B("bye")}, TVr: 1, Close: true}}})
+	}
+	// MaxRequestsPerConn counts the timed-out requests too (the serve loop's own counter, not the swapped ctx'), and
+	// ctx.ConnRequestNum() of later requests is right
+	out = append(out, desc{Cfg: cfgD{MaxReq: 4}, Cap: 4, TMsg: "t/o", Tag: "max-requests", Events: []evD{{Kind: "open"},
+		{Kind: "req", Conn: 0, RKind: "fast", Method: "GET", Val: &valD{Status: 200, Body: hlib.B("n")}, ShowNum: true}, slow(0, "GET", 0),
+		{Kind: "req", Conn: 0, RKind: "fast", Method: "GET", Val: &valD{Status: 200, Body: hlib.B("n")}, ShowNum: true},
+		{Kind: "req", Conn: 0, RKind: "fast", Method: "GET", Val: &valD{Status: 200, Body: hlib.B("last")}, ShowNum: true}, late(0, lw("late"))}})
+	out = append(out, desc{Cfg: cfgD{MaxReq: 2}, Cap: 4, TMsg: "t/o", Tag: "max-requests", Events: []evD{{Kind: "open"}, fast(0, "GET", "one"), slow(0, "GET", 0), late(0, lw("late"))}})
+	// ReduceMemoryUsage: the connection's ctx returns to the pool between requests while a late handler still runs
+	out = append(out, desc{Cfg: cfgD{ReduceMem: true}, Cap: 4, TMsg: "t/o", Tag: "reduce-memory", Events: []evD{{Kind: "open"}, {Kind: "open"}, slow(0, "GET", 0), fast(1, "GET", "a"),
+		fast(0, "GET", "b"), late(0, lw("late-1"), valD{Status: 299, Body: hlib.B("lter"), LTER: true}, valD{Status: 500, Body: hlib.B("late-2"), Late: true, Hijack: true}), fast(1, "GET", "c"), fast(0, "GET", "d")}})
+	// the handler had built a (streamed) response and asked for a hijack before the timeout fired
+	out = append(out, desc{Cap: 4, TMsg: "t/o", SlowMs: 5, Tag: "pre-write", Events: []evD{{Kind: "open"},
+		{Kind: "req", Conn: 0, RKind: "slow", Method: "GET", ID: 0, Pre: &valD{Status: 200, Body: hlib.B("pre-streamed"), Late: true, Stream: true, Hijack: true}},
+		fast(0, "GET", "next"), late(0, lw("late")), fast(0, "GET", "end")}})
+	// default Concurrency (Server.Concurrency = 0)
+	out = append(out, desc{Cap: 0, TMsg: "t/o", Tag: "default-concurrency", Events: []evD{{Kind: "open"}, slow(0, "GET", 0), slow(0, "GET", 1), fast(0, "GET", "served"), late(0, lw("l0")), late(1, lw("l1"))}})
 	// a server that only ever ran ServeConn (a finding until /repo 0e1d77b: the semaphore did not exist, every call got 429)
 	for _, m := range []string{"GET", "HEAD"} {
 		out = append(out, desc{Cap: 8, TMsg: "t/o", Tag: "serveconn-only", UseSC: true,
